@@ -5,7 +5,8 @@ closure against a free `ax_beat.ready`; the oracle is checks/c10_ref.py (AMBA eq
 Part 2 (cfg names `AXIUpConverter(..)`, `AXIDownConverter(..)`, `AXIConverter(..)`): one write and/or one read burst through
 the converter, every valid/ready schedule of the five channels on both sides, byte-level oracles (checks/c10_conv.py).
 Burst classes the converters do not translate (candidate r of DESIGN §3) carry a `+tag` in the configuration name; the
-untagged configurations (full-width, bus-aligned, ratio-multiple INCR bursts) must be clean."""
+untagged configurations (full-width, bus-aligned, ratio-multiple INCR bursts) and the `,tag` ones (further classes the
+code does translate) must be clean."""
 import fsmc  # noqa
 from fsmc.explore import Explorer, replay_stock
 from fsmc.design import MachineryError
@@ -31,9 +32,10 @@ ASSUMPTIONS = [
     "converters: one write burst and/or one read burst per run; master strobes only legal byte lanes (sparse strobes on some beats), "
     "slave drives junk on read lanes outside the transfer; read data is a fixed function of the byte address (no read-after-write through memory)",
     "converters: over-fetching reads (slave-side burst covering more bytes than the master's) are not an error as long as the master receives its bytes on its lanes",
-    "id/resp side-band alignment is not part of the property text; it is checked only in the '+sideband' configurations (rules r.id, r.resp, b.id, b.resp, aw.id, ar.id)",
+    "id/resp side-band alignment is not part of the property text; it is checked only in the '+sideband' configurations (rules r.sideband, b.sideband, aw.id, ar.id)",
     "burst classes named by a +tag (narrow, unaligned, partial, fixed, wrap, lenoverflow) are outside what axi_full.py claims to support "
-    "('Assuming size of axi_from burst >= axi_to data_width'); the untagged base configurations must be clean",
+    "('Assuming size of axi_from burst >= axi_to data_width'); the untagged base configurations and the ','-tagged extra classes "
+    "(,unaligned ,wrap ,maxlen: measured clean on the pinned tree) must be clean",
 ]
 MAXTASKS = 4
 BT = {"FIXED": ref.FIXED, "INCR": ref.INCR, "WRAP": ref.WRAP}
@@ -70,8 +72,14 @@ def log2(x):
     return x.bit_length() - 1
 
 
-def conv_bursts(cls, dwf, dwt, klass, tier):
-    """the master-side bursts (addr, len, size, burst, id, resp) of one class"""
+def conv_bursts(cls, dwf, dwt, klass, tier, part=None):
+    """the master-side bursts (addr, len, size, burst, id, resp) of one class.  `part` splits the classes `unaligned` and
+    `wrap` into the sub-class the converter translates ("ok": cfg tag ',unaligned' / ',wrap', must stay clean) and the rest
+    ("ko": cfg tag '+unaligned' / '+wrap'):
+      unaligned/ok  down-converter: every offset (it aligns the address itself); up-converter: offsets inside the first
+                    narrow word of a wide word (the converted burst starts at the same address with the wide size)
+      wrap/ok       down-converter: (len+1)*ratio <= 16 (the converted WRAP burst is still a legal one);
+                    up-converter: start aligned to the wide bus and at least two wide transfers"""
     mb, sb = dwf // 8, dwt // 8
     wide = max(mb, sb)
     ratio = max(mb, sb) // min(mb, sb)
@@ -83,6 +91,13 @@ def conv_bursts(cls, dwf, dwt, klass, tier):
     out = []
 
     def add(addr, ln, size, bt):
+        if part is not None and klass in ("unaligned", "wrap"):
+            if klass == "unaligned":
+                ok = (addr % wide) < mb if up else True
+            else:
+                ok = (addr % wide == 0 and ln + 1 >= 2 * ratio) if up else ((ln + 1) * ratio <= 16)
+            if ok != (part == "ok"):
+                return
         if ref.illegal(addr, ln, size, bt, mb) is None:
             out.append((addr, ln, size, bt, 1 + (ln + (addr >> 2)) % 3, 2 if ln % 2 else 0))
 
@@ -96,13 +111,20 @@ def conv_bursts(cls, dwf, dwt, klass, tier):
                 for a in ends(ln, full):
                     if a % wide == 0:
                         add(a, ln, full, ref.INCR)
+    elif klass == "base-small":
+        # concurrent write + read: the product of the two schedules is explored, so only the two shortest bursts
+        n = 0
+        for ln in range(maxlen + 1):
+            if mult(ln) and n < (2 if ratio < 8 else 1):
+                add(P, ln, full, ref.INCR)
+                n += 1
     elif klass == "unaligned":
         for ln in range(maxlen + 1):
             if mult(ln) and (tier == "thorough" or ln in (0, 1, 2, 3, 7)):
                 for off in range(1, wide):
                     add(P + off, ln, full, ref.INCR)
     elif klass == "partial":
-        for ln in range(maxlen + 1):
+        for ln in range(max(maxlen, 2 * ratio - 1) + 1):
             if not mult(ln):
                 add(P, ln, full, ref.INCR)
                 add(0x3000 - wide * (ln // ratio + 1), ln, full, ref.INCR)
@@ -123,11 +145,13 @@ def conv_bursts(cls, dwf, dwt, klass, tier):
             add(P + off, 1, full, ref.FIXED)
     elif klass == "wrap":
         for ln in (1, 3, 7, 15):
-            if ln <= maxlen or (ln == 15 and tier == "thorough"):
+            if True:
                 tot = (ln + 1) << full
                 for wb in (P, 0x3000 - tot):
                     for p in range(ln + 1):
                         add(wb + (p << full), ln, full, ref.WRAP)
+    elif klass == "maxlen":
+        add(P, 256 // ratio - 1, full, ref.INCR)
     elif klass == "lenoverflow":
         for ln in (256 // ratio, 255):
             add(P, ln, full, ref.INCR)
@@ -158,26 +182,33 @@ def _conv():
         nm = f"{cls}({dwf}->{dwt})"
         up, same = dwt > dwf, dwt == dwf
         for mode, mtag in (("w", "wr"), ("r", "rd"), ("wr", "wr+rd")):
-            def reg(tag, klass, sideband=False, t=tier):
-                CONV[f"{nm}[{mtag}]{tag}"] = (t, dict(cls=cls, dwf=dwf, dwt=dwt, mode=mode, sideband=sideband, klass=klass))
+            def reg(tag, klass, sideband=False, t=tier, part=None):
+                CONV[f"{nm}[{mtag}]{tag}"] = (t, dict(cls=cls, dwf=dwf, dwt=dwt, mode=mode, sideband=sideband, klass=klass, part=part))
             if same:
                 if mode != "wr":
                     reg("", "all", sideband=True)
                 continue
+            if mode == "wr":
+                reg("", "base-small")
+                continue
             reg("", "base")
             reg("+sideband", "base", sideband=True)
-            if mode == "wr" or cls == "AXIConverter":
+            if cls == "AXIConverter":
                 continue
-            reg("+unaligned", "unaligned")
+            if not up or dwf > 8:
+                reg(",unaligned", "unaligned", part="ok")
             if up:
+                reg("+unaligned", "unaligned", part="ko")
                 reg("+partial", "partial")
             else:
+                reg(",maxlen", "maxlen", t=tier if (dwf, dwt) == (64, 32) else "thorough")
                 reg("+lenoverflow", "lenoverflow")
             if dwf > 8:
                 reg("+narrow", "narrow")
                 reg("+narrow+unaligned", "narrow+unaligned", t="thorough")
             reg("+fixed", "fixed")
-            reg("+wrap", "wrap")
+            reg(",wrap", "wrap", part="ok")
+            reg("+wrap", "wrap", part="ko")
 
 
 _b2b()
@@ -231,6 +262,7 @@ def run_config(cfg, seed, tier):
         space = burst_space(kw["burst"], kw["size"], kw["lens_q"] if tier == "quick" else kw["lens_t"])
         if not space:
             raise MachineryError(f"{name}: empty burst space")
+        H.conf_every = max(1, 4 * sum(b[1] + 1 for b in space) // 2500)
         for g in groups_of(space):
             H.set_group(g)
             _merge(tot, ex.run(), viol, failing, f"{len(g)} bursts from addr={g[0][0]:#x} len={g[0][1]}")
@@ -243,7 +275,7 @@ def run_config(cfg, seed, tier):
         tot["bursts"] = len(space)
     else:
         kw = CONV[name][1]
-        space = conv_bursts(kw["cls"], kw["dwf"], kw["dwt"], kw["klass"], tier)
+        space = conv_bursts(kw["cls"], kw["dwf"], kw["dwt"], kw["klass"], tier, kw.get("part"))
         if not space:
             raise MachineryError(f"{name}: empty burst space")
         clean = []
